@@ -135,6 +135,25 @@ Theorem C20_helper_laws_all_extents : forall R ops, is_ring R ops -> forall n (u
 Proof. intros R ops H n u v x A B w. exact (helper_laws_all_n H n u v x A B w). Qed.
 Print Assumptions C20_helper_laws_all_extents.
 
+(* trailing axes are pointwise: the helper terms instantiated at arrays over a trailing index set T (pointwise operations)
+   are, at every trailing index t, the scalar terms applied to the slices at t - so every theorem above holds slice by slice *)
+Theorem C20_trailing_axes_pointwise : forall (T R : Type) (ops : FOps R) n (A B : mat (T -> R)) (u v : vec (T -> R)) (t : T) i j,
+  np_det_3 A t = np_det_3 (fun i j => A i j t) /\ jx_det_3 A t = jx_det_3 (fun i j => A i j t) /\
+  np_det_2 A t = np_det_2 (fun i j => A i j t) /\
+  np_inv_2 A i j t = np_inv_2 (fun i j => A i j t) i j /\ np_inv_3 A i j t = np_inv_3 (fun i j => A i j t) i j /\
+  np_cross_3 u v i t = np_cross_3 (fun i => u i t) (fun i => v i t) i /\
+  np_dot n u v t = np_dot n (fun i => u i t) (fun i => v i t) /\
+  np_mul n A u i t = np_mul n (fun i j => A i j t) (fun i => u i t) i /\
+  np_ddot n A B t = np_ddot n (fun i j => A i j t) (fun i j => B i j t) /\
+  np_sym_grad n u A i j t = np_sym_grad n (fun i => u i t) (fun i j => A i j t) i j.
+Proof.
+  intros T R ops n A B u v t i j. destruct (det_pointwise A t) as [D2 [D3 [_ J3]]]. destruct (inv_pointwise A t i j) as [I2 I3].
+  destruct (dot_mul_pointwise n u v A t i) as [Hd [Hm _]].
+  exact (conj D3 (conj J3 (conj D2 (conj I2 (conj I3 (conj (proj2 (cross_pointwise u v t i)) (conj Hd (conj Hm
+        (conj (ddot_pointwise n A B t) (sym_grad_pointwise n u A t i j)))))))))).
+Qed.
+Print Assumptions C20_trailing_axes_pointwise.
+
 (* the NumPy and the JAX variant of each helper present in both modules are the same function
    (per-helper lemmas are generated in Gen.C20Agree from the two translations; 3x3 det below) *)
 Theorem C20_numpy_jax_agree : forall R (ops : FOps R) n (u v w : vec R) (A : mat R) (S T : ten3 R) (c : R) i j k,
